@@ -13,7 +13,7 @@ from wpilib.simulation import DriverStationSim as DS
 import magicbot
 from magicbot import will_reset_to, feedback
 
-SEED = int(os.environ.get("VERIF_SEED", "0")); N = int(os.environ.get("ROBOT_TRIALS", "150"))
+SEED = int(os.environ.get("VERIF_SEED", "0")); N = int(os.environ.get("ROBOT_TRIALS", "150")) * int(os.environ.get("VERIF_SCALE", "1"))
 rnd = random.Random(SEED)
 TRACE = []
 nt = ntcore.NetworkTableInstance.getDefault()
